@@ -361,15 +361,18 @@ func TestC05(t *testing.T) { checkProp(t, "C05", "random", genC05, execC05) }
 // ---- id allocation ----------------------------------------------------------
 
 type C05IDs struct {
-	Burst  int  `json:"burst"`          // callers started in the same scheduler step
-	Rounds int  `json:"rounds"`         // bursts on the same connection
-	Mix    bool `json:"mix"`            // mix unary calls and streams
-	Spin   int  `json:"spin,omitempty"` // >0: callers leave the id-allocation point in groups of this size at the same instant (spin barrier at the hook point)
-	Slow   bool `json:"slow,omitempty"` // unary handlers stay busy until the whole burst has arrived and 20ms have passed
+	// Stats: do-nothing stats handlers on server and client (kit.Topo.Stats)
+	Stats  bool `json:"stats,omitempty"`
+	Burst  int  `json:"burst"`           // callers started in the same scheduler step
+	Rounds int  `json:"rounds"`          // bursts on the same connection
+	Mix    bool `json:"mix"`             // mix unary calls and streams
+	Spin   int  `json:"spin,omitempty"`  // >0: callers leave the id-allocation point in groups of this size at the same instant (spin barrier at the hook point)
+	Conns  int  `json:"conns,omitempty"` // connections of one Server object the burst is spread over (0 = 1)
+	Slow   bool `json:"slow,omitempty"`  // unary handlers stay busy until the whole burst has arrived and 20ms have passed
 }
 
 func genC05IDs(t *rapid.T) C05IDs {
-	return C05IDs{Burst: rapid.SampledFrom([]int{2, 8, 32, 64, 64}).Draw(t, "burst"), Rounds: rapid.IntRange(1, 4).Draw(t, "rounds"), Mix: rapid.Bool().Draw(t, "mix"), Slow: rapid.Bool().Draw(t, "slow"), Spin: rapid.SampledFrom([]int{0, 2, 4, 8}).Draw(t, "spin")}
+	return C05IDs{Burst: rapid.SampledFrom([]int{2, 8, 32, 64, 64}).Draw(t, "burst"), Rounds: rapid.IntRange(1, 4).Draw(t, "rounds"), Mix: rapid.Bool().Draw(t, "mix"), Slow: rapid.Bool().Draw(t, "slow"), Spin: rapid.SampledFrom([]int{0, 2, 4, 8}).Draw(t, "spin"), Conns: rapid.SampledFrom([]int{1, 1, 2, 3}).Draw(t, "conns"), Stats: rapid.IntRange(0, 3).Draw(t, "stats") == 0}
 }
 
 func execC05IDs(t *testing.T, c C05IDs) (v Verdict) {
@@ -396,7 +399,8 @@ func execC05IDs(t *testing.T, c C05IDs) (v Verdict) {
 			}
 			return kit.SendBytes(s, b)
 		})
-		w := kit.NewWorld(kit.Topo{Kind: "direct", Clients: 1}, svc, nil, nil)
+		nconn := max(1, c.Conns)
+		w := kit.NewWorld(kit.Topo{Kind: "direct", Clients: nconn, Stats: c.Stats}, svc, nil, nil)
 		for r := 0; r < c.Rounds; r++ {
 			if c.Spin > 0 {
 				defer spinBarrier([]string{"mux.unary.beforeRegister", "mux.stream.beforeRegister"}, c.Burst, c.Spin)()
@@ -417,7 +421,7 @@ func execC05IDs(t *testing.T, c C05IDs) (v Verdict) {
 					<-start
 					tok := []byte{byte(r), byte(i)}
 					if c.Mix && i%2 == 1 {
-						cs, err := w.Conn(0).NewStream(context.Background(), kit.StreamDescFor(kit.KindBidi), kit.FullMethod("s"))
+						cs, err := w.Conn((i/2+i)%nconn).NewStream(context.Background(), kit.StreamDescFor(kit.KindBidi), kit.FullMethod("s"))
 						if err != nil {
 							return
 						}
@@ -431,7 +435,7 @@ func execC05IDs(t *testing.T, c C05IDs) (v Verdict) {
 						_, _ = kit.RecvBytes(cs)
 						return
 					}
-					if b, err := kit.Invoke(context.Background(), w.Conn(0), "u", tok); err == nil && bytes.Equal(b, tok) {
+					if b, err := kit.Invoke(context.Background(), w.Conn((i/2+i)%nconn), "u", tok); err == nil && bytes.Equal(b, tok) {
 						mu.Lock()
 						okCalls++
 						mu.Unlock()
@@ -461,23 +465,25 @@ func execC05IDs(t *testing.T, c C05IDs) (v Verdict) {
 		v.failf("%d of %d concurrently started calls got their own reply", okCalls, total)
 	}
 	// opening envelopes: the first client->server envelope of each id
-	opens := map[uint64]int{}
-	for _, e := range kit.Filter(tap, "c0", kit.AtoB) {
-		r := e.Rpc
-		isOpen := r.GetTrailer() == nil && r.GetReset_() == nil && (r.GetHeader().GetMethod() == kit.FullMethod("u") || r.GetBody() == nil)
-		if isOpen {
-			opens[r.GetId()]++
+	opens := map[string]int{}
+	for ci := 0; ci < max(1, c.Conns); ci++ {
+		for _, e := range kit.Filter(tap, kit.ClientName(ci), kit.AtoB) {
+			r := e.Rpc
+			isOpen := r.GetTrailer() == nil && r.GetReset_() == nil && (r.GetHeader().GetMethod() == kit.FullMethod("u") || r.GetBody() == nil)
+			if isOpen {
+				opens[fmt.Sprintf("%s/%d", kit.ClientName(ci), r.GetId())]++
+			}
 		}
 	}
 	for id, n := range opens {
 		if n > 1 {
-			v.failf("stream id %d was used to open %d calls", id, n)
+			v.failf("stream id %s was used to open %d calls", id, n)
 		}
 	}
 	if len(opens) != total {
 		v.failf("%d distinct ids on the wire for %d calls", len(opens), total)
 	}
-	v.Info = kit.CaseInfo{Labels: []string{fmt.Sprintf("burst=%d", c.Burst), fmt.Sprintf("mix=%v", c.Mix), fmt.Sprintf("slow_handlers=%v", c.Slow), fmt.Sprintf("spin_barrier=%v", c.Spin > 0)}, NonTrivial: c.Burst >= 8, Key: fmt.Sprintf("%+v", c), Sample: c}
+	v.Info = kit.CaseInfo{Labels: []string{fmt.Sprintf("burst=%d", c.Burst), fmt.Sprintf("mix=%v", c.Mix), fmt.Sprintf("slow_handlers=%v", c.Slow), fmt.Sprintf("connections>1=%v", c.Conns > 1), fmt.Sprintf("spin_barrier=%v", c.Spin > 0)}, NonTrivial: c.Burst >= 8, Key: fmt.Sprintf("%+v", c), Sample: c}
 	return
 }
 
